@@ -308,7 +308,7 @@ class OB:
                         hyps = [h for h in hyps if not is_nonlinear(h)]
                     hyps = hyps + list(facts)
             self.items.append(Item(self._side_name(label, ob), ob.kind, hyps, ob.goal, ob.lineno,
-                                   note=ob.label, replay=self._replayer()))
+                                   note=ob.label, replay=self._replayer(), pairs=(ob.kind != 'deriv')))
 
     def named(self, name, value):
         """give a result of the real function a name: the goal is then stated over the constant
@@ -435,7 +435,7 @@ class OB:
             if all(isinstance(v, SV) for v in vals):
                 r = vals[-1]
                 for c, v in zip(reversed(conds[:-1]), reversed(vals[:-1])):
-                    x = npmodel.ite(self.I, c, v, r)
+                    x = npmodel.ite(self.I, c, v, r, use_ctx=False)
                     r = SV(x.t, x.pinf, x.ninf, None, npmodel.merge_kind(v, r), v.index)
                 return r
             if all(isinstance(v, tuple) for v in vals) and len({len(v) for v in vals}) == 1:
@@ -723,7 +723,8 @@ def run_generator(prop, name, second_solver=False):
     return out
 
 
-_POOL = [0.0, 1.0, -1.0, 0.5, -0.5, 0.25, 2.0, -2.0, 3.5, 0.1, -0.3, 0.7, 7.0, 12.5, 100.0, -150.0, 350.0, 1000.0, 0.01, 0.9, 70000.0, 210000.0, 1.5]
+# moderate magnitudes only: the cross-check compares real floats with exact terms, extreme values only produce overflow artefacts
+_POOL = [0.0, 1.0, -1.0, 0.5, -0.5, 0.25, 2.0, -2.0, 3.5, 0.1, -0.3, 0.7, 7.0, 12.5, 0.05, 0.9, 1.5, 4.0, -3.0, 0.6, 30.0]
 
 
 def pick_inputs(ob, rng):
